@@ -145,10 +145,12 @@ func c17(r *core.Run) {
 	r.Rule("G2", "character class: Pattern.IsValid, IsValidRID and isValidPart reject the same range (below 33, above 126) and each treats '?' specially", 3)
 	r.Rule("G3", "single pass: tag replacement scans the original pattern once; the result of a replacement is never the receiver of another replacement", 2)
 
+	r.Rule("G7", "routing is token-wise on the path as well (shared with C06.R7): Mux.GetHandler strips the mux path only at a token boundary; Pattern.Matches / Values, with which routing must agree, never match 'library' against 'lib.$id'", 1)
 	r.Rule("G6", "routing accepts what the grammar accepts (shared with C06.R9): the trie matcher returns false only after the literal, the placeholder and the full-wildcard child were all tried, so a name that Pattern.Matches accepts for a registered pattern is not lost because another, longer pattern shares a literal prefix token with it", 1)
 	if ro := resolveMuxRolesFor(r, "G6"); ro != nil {
 		c06NoEarlyFailure(r, "G6", ro)
 	}
+	c06PrefixBoundary(r, "G7")
 
 	// ---- G5 --------------------------------------------------------------
 	if mf := methodNamed(p, "", "Pattern", "Matches"); mf != nil && len(mf.Params) == 2 {
